@@ -9,6 +9,8 @@ package verifharness
 
 import (
 	"context"
+	"net"
+	"os"
 	"encoding/base64"
 	"errors"
 	"fmt"
@@ -622,7 +624,8 @@ func svCensus() (writer, workers, hs int) {
 			writer++
 		case strings.Contains(g, "goat.(*handler).serve.func3"):
 			workers++
-		case strings.Contains(g, "created by github.com/avos-io/goat.(*handler).processStreamingRpc"):
+		case strings.Contains(g, "created by github.com/avos-io/goat.(*handler)"):
+			// runStream goroutines (created by processStreamingRpc) - and anything else a connection's methods start
 			hs++
 		}
 	}
@@ -748,6 +751,11 @@ func (r *svRig) do(a *SAct) bool {
 				e = fmt.Errorf("transport write: %w (%w)", context.Canceled, errWriteInjected)
 			case "eof":
 				e = fmt.Errorf("transport write: %w (%w)", io.EOF, errWriteInjected)
+			case "nettimeout":
+				// a timeout-type net.Error (a write deadline on a socket)
+				e = &net.OpError{Op: "write", Net: "tcp", Err: svTimeoutErr{}}
+			case "ostimeout":
+				e = fmt.Errorf("transport write: %w", os.ErrDeadlineExceeded)
 			}
 			r.ep.FailWrites(e)
 		} else {
@@ -906,6 +914,37 @@ func runServerScenario(t *testing.T, idx int, kind string, next func(r *svRig, s
 	wd.mu.Unlock()
 	res.Leaked = leaked
 	return res
+}
+
+// svTimeoutErr: a net.Error with Timeout() == true that also identifies the harness's injected write failure
+type svTimeoutErr struct{}
+
+func (svTimeoutErr) Error() string   { return "i/o timeout (injected write failure)" }
+func (svTimeoutErr) Timeout() bool   { return true }
+func (svTimeoutErr) Temporary() bool { return true }
+func (svTimeoutErr) Unwrap() error   { return errWriteInjected }
+
+var svQualRe = regexp.MustCompile(`\b[A-Za-z][A-Za-z0-9_]*\b`)
+var svQualTab = func() map[string]string {
+	m := map[string]string{}
+	for _, n := range strings.Fields("ADeliver AFailRead ASetWriteFail ABlockWrites AStop ACancelServeCtx AHandlerStep HRecv HSend HSetHeader HSendHeader " +
+		"HSetTrailer HAwaitCtx HReturn HNil HStatus HCanceled HDeadline HPlain mkFrame MBad MUnkSvc MUnkMeth MUnary MStream SvInvoke SvOp SvRet " +
+		"SvServeRet ORecvMsg ORecvEof ORecvStatus ORecvUnmarshal OCtx OOk OHdrSent OAwaited SRead SReadCtx SCtx SWrite") {
+		m[n] = "Server." + n
+	}
+	m["CSrv"], m["mkObs"] = "ServerC.CSrv", "ServerC.mkObs"
+	return m
+}()
+
+// svQualify prints a case term with the names of Model/Server.v and Check/ServerC.v qualified: for the cases files of the
+// checks that import the CLIENT model (both models have ADeliver, AFailRead, mkObs ...)
+func svQualify(term string) string {
+	return svQualRe.ReplaceAllStringFunc(term, func(w string) string {
+		if q, ok := svQualTab[w]; ok {
+			return q
+		}
+		return w
+	})
 }
 
 func svCase(res svResult) string {
